@@ -91,6 +91,7 @@ type PathResult struct {
 	Funcs        map[*ssa.Function]bool
 	Steps        int
 	Witness      Model
+	WitnessSyms  []SymRecord
 	FeasUnknown  int
 	PanicTop     string
 	Notes        []string
